@@ -1,10 +1,149 @@
 import Model.Common.Proto
+import Model.Common.Sha256
+import Model.C06.Bech32
+import Model.C06.Bech32Ref
+import Model.C06.BitRegroup
+import Model.C06.Base58
+import Model.C06.Address
+import Generated.Bech32
+import Generated.Base58
+import Generated.Segwit
+import Generated.Net
 open Btc
 
-/-- line protocol of property C06: see harness/c06.py -/
+/-- line protocol of property C06: see harness/c06.py.
+    text = hex of latin-1 code points (`_` empty); value lists = comma separated integers (`_` empty). -/
+def text? (s : String) : Option (List Nat) := (fromHex? s).map fun b => b.map (·.toNat)
+def textHex (s : List Nat) : String := toHex (s.map UInt8.ofNat)
+
+def ints? (s : String) : Option (List Int) :=
+  if s == "_" then some [] else (s.splitOn ",").mapM parseInt?
+
+def nats (l : List Nat) : String :=
+  if l.isEmpty then "_" else ",".intercalate (l.map toString)
+
+def optNat? (s : String) : Option (Option Nat) :=
+  if s == "None" then some none else s.toNat?.map some
+
+def cls {ε α} (f : ε → String) (r : Except ε α) (ok : α → String) : String :=
+  match r with
+  | .ok v => "ok " ++ ok v
+  | .error e => "err " ++ f e
+
+def specName : Bech32Ref.Encoding → String
+  | .bech32 => "bech32" | .bech32m => "bech32m"
+
+def refSegwitDecode (addr : List Nat) : String :=
+  -- the reference takes the expected hrp: try the hrp of every generated network, first hit wins
+  let hrps := (Gen.Net.NETWORKS.map (·.hrp)).eraseDups
+  match hrps.findSome? (fun h => (Bech32Ref.segwitDecode h addr).map fun r => (h, r)) with
+  | some (h, (v, p)) => s!"ref ok {v} {textHex p} {textHex h}"
+  | none => "ref none"
+
 def handle : List String → String
-  -- one line per generated module this driver serves, e.g.
-  -- | "gen" :: "VarInt" :: fn :: args => (Gen.VarInt.dispatch fn args).getD "bad-op"
+  | "gen" :: "Bech32" :: fn :: args => (Gen.Bech32.dispatch fn args).getD "bad-op"
+  | "gen" :: "Base58" :: fn :: args => (Gen.Base58.dispatch fn args).getD "bad-op"
+  | "gen" :: "Segwit" :: fn :: args => (Gen.Segwit.dispatch fn args).getD "bad-op"
+  | "gen" :: "Net" :: fn :: args => (Gen.Net.dispatch fn args).getD "bad-op"
+  | ["polymod", vals] =>
+    match ints? vals with
+    | some v =>
+      let v := v.map Int.toNat
+      s!"ok {Bech32.polymod v} {Bech32Ref.polymod v}"
+    | none => "bad-op"
+  | ["bech32.enc", hrp, vals, m] =>
+    match text? hrp, ints? vals, optNat? m with
+    | some hrp, some d, some m =>
+      match Bech32.encode hrp d m with
+      | .error e => "err " ++ e.cls
+      | .ok s =>
+        let dn := d.map Int.toNat
+        let eff := match m with | some m => some m | none => (match dn with | v :: _ => some (if v = 0 then 1 else Bech32Ref.BECH32M_CONST) | [] => none)
+        let r := if eff = some 1 then (if Bech32Ref.encode hrp dn .bech32 = s then "ref-agrees" else "ref-differs")
+                 else if eff = some Bech32Ref.BECH32M_CONST then (if Bech32Ref.encode hrp dn .bech32m = s then "ref-agrees" else "ref-differs")
+                 else "ref-na"
+        s!"ok {textHex s} {r}"
+    | _, _, _ => "bad-op"
+  | ["bech32.dec", txt, m] =>
+    match text? txt, optNat? m with
+    | some t, some m =>
+      let a := cls Bech32.Err.cls (Bech32.decode t m) fun (h, d) => s!"{textHex h} {nats d}"
+      let r := match Bech32Ref.decode t with
+        | some (h, d, spec) => s!"ref {textHex h} {nats d} {specName spec}"
+        | none => "ref none"
+      s!"{a} | {r}"
+    | _, _ => "bad-op"
+  | ["regroup", vals, f, t, pad] =>
+    match ints? vals, f.toNat?, t.toNat? with
+    | some v, some f, some t =>
+      let p := pad == "True"
+      let a := cls (fun _ => "value") (BitRegroup.convertInt v f t p) nats
+      let r := if v.all (0 ≤ ·) then
+          (match Bech32Ref.convertbits (v.map Int.toNat) f t p with | some l => "ref " ++ nats l | none => "ref none")
+        else "ref none"
+      s!"{a} | {r}"
+    | _, _, _ => "bad-op"
+  | ["b58.rawenc", hex] =>
+    match fromHex? hex with
+    | some b => "ok " ++ textHex (Base58.b58encode b)
+    | none => "bad-op"
+  | ["b58.rawdec", txt] =>
+    match text? txt with
+    | some t => cls (fun _ => "value") (Base58.b58decode t) toHex
+    | none => "bad-op"
+  | ["b58.enc", hex] =>
+    match fromHex? hex with
+    | some b => "ok " ++ textHex (Base58.encode hash256 b)
+    | none => "bad-op"
+  | ["b58.dec", txt, size] =>
+    match text? txt, optNat? size with
+    | some t, some n => cls (fun _ => "value") (Base58.decode hash256 t n) toHex
+    | _, _ => "bad-op"
+  | ["segwit.enc", ver, prog, net] =>
+    match parseInt? ver, fromHex? prog with
+    | some v, some p =>
+      match Address.networkNamed net with
+      | none => "err value | ref none"
+      | some n =>
+        let a := cls Address.Err.cls (Address.addressFromWitness v p n.hrp) textHex
+        let r := if v < 0 then "ref none" else
+          match Bech32Ref.segwitEncode n.hrp v.toNat (Address.toNats p) with
+          | some s => "ref " ++ textHex s
+          | none => "ref none"
+        s!"{a} | {r}"
+    | _, _ => "bad-op"
+  | ["segwit.dec", txt] =>
+    match text? txt with
+    | some t =>
+      let a := cls Address.Err.cls (Address.witnessFromAddress t) fun (v, p, n) => s!"{v} {toHex p} {n}"
+      s!"{a} | {refSegwitDecode (Address.strip t)}"
+    | none => "bad-op"
+  | ["segwit.prefixed", txt] =>
+    match text? txt with
+    | some t => if Address.isSegwitPrefixed t then "ok True" else "ok False"
+    | none => "bad-op"
+  | ["h160.enc", kind, hex, net] =>
+    match fromHex? hex, Address.networkNamed net with
+    | some h, some n =>
+      let k := if kind == "p2sh" then Address.Kind.p2sh else if kind == "p2pkh" then .p2pkh else .other
+      cls Address.Err.cls (Address.addressFromH160 hash256 k h n) textHex
+    | _, _ => "err value"
+  | ["h160.dec", txt] =>
+    match text? txt with
+    | some t => cls Address.Err.cls (Address.h160FromAddress hash256 t) fun (k, h, n) => s!"{k.name} {toHex h} {n}"
+    | none => "bad-op"
+  | ["spk.type", hex] =>
+    match fromHex? hex with
+    | some s => let (k, p) := Address.typeAndPayload s; s!"ok {k.name} {if k = .other then "-" else toHex p}"
+    | none => "bad-op"
+  | ["spk.addr", hex, net] =>
+    match fromHex? hex with
+    | some s => cls Address.Err.cls (Address.address hash256 s net) textHex
+    | none => "bad-op"
+  | ["spk.from", txt] =>
+    match text? txt with
+    | some t => cls Address.Err.cls (Address.fromAddress hash256 t) fun (s, n) => s!"{toHex s} {n}"
+    | none => "bad-op"
   | _ => "bad-op"
 
 def main : IO Unit := runLoop handle
